@@ -91,5 +91,22 @@ for q in [13, 251]:
                               stubs=["math/big.Int as mathematical integers with shared storage for struct copies"],
                               functions=["edwards25519vartime.(*%s).%s" % (tn, on), "edwards25519vartime.(*%s).Clone" % tn], bound="prime field of %d elements, arbitrary curve parameters a, d, arbitrary coordinates and stale receiver, aliasing %s" % (q, pn),
                               tiers=(["quick", "thorough"] if q == 13 else ["thorough"])))
+HD5 = os.path.join(os.path.dirname(__file__), "..", "harness", "C05")
+open(os.path.join(HD5, "gen_bngt_bn256.go"), "w").write("// Code generated from bngt.go by gen/c05.py. DO NOT EDIT.\n" + open(os.path.join(HD5, "bngt.go")).read().replace("package bn254", "package bn256"))
+for pk, hf in [("bn254", "harness/C05/bngt.go"), ("bn256", "harness/C05/gen_bngt_bn256.go")]:
+    Q = "go.dedis.ch/kyber/v4/pairing/%s." % pk
+    E12 = "(*" + Q + "gfP12)."
+    gtc = {E12 + k: dict(writes=[0], havoc=True, returns="arg0") for k in ["Mul", "Conjugate", "Exp", "SetOne", "SetZero", "Invert", "Square", "Neg", "Add", "Sub"]}
+    for k in ["gfpMul", "gfpAdd", "gfpSub", "gfpNeg"]:
+        gtc[Q + k] = dict(writes=[0], havoc=True)
+    gtr = {Q + "optimalAte": "gtOptimalAte", Q + "miller": "gtMiller", Q + "finalExponentiation": "gtFinalExp"}
+    for how, hn in enumerate(["Base", "Null", "Set", "Clone", "MulBase", "Neg", "Sub"]):
+        for mu, mn in enumerate(["Add", "Neg", "Null", "Mul", "Set-then-Add"]):
+            H.append(dict(name="%s.GT.%s-then-%s" % (pk, hn, mn), pkg="./pairing/" + pk, files=[hf], entry="HarnessGTValueSemantics", mode="int", params={"p0": how, "p1": mu}, globals_all=True, contracts=gtc, renames=gtr,
+                          replay_entry="HarnessGTValueSemanticsReplay", unwind=200, approx_bitops=True,
+                          stubs=["gfP12 arithmetic (Mul, Conjugate, Exp, SetOne, ...) -> writes only its receiver, arbitrary value; optimalAte / miller / finalExponentiation -> return a new element, arbitrary value; gfP12.Set / Clone run on their real bodies"],
+                          functions=["%s.(*pointGT).%s" % (pk, x) for x in ["Base", "Null", "Set", "Clone", "Add", "Sub", "Neg", "Mul", "Pair"]],
+                          bound="two points obtained by %s, one mutating call (%s) on the first; arbitrary element values" % (hn, mn),
+                          tiers=(["quick", "thorough"] if mn in ("Add", "Set-then-Add") and hn in ("Base", "Null", "Set", "Clone", "MulBase") else ["thorough"])))
 json.dump(dict(property="C05", harnesses=H), open(os.path.join(os.path.dirname(__file__), "..", "specs", "C05.json"), "w"), indent=1)
 print(len(H))
